@@ -2512,8 +2512,14 @@ class CompressedCertificate(Certificate):
 
         try:
             if self.compression_algo == CertificateCompressionAlgorithm.zlib:
-                decompressed_msg = zlib.decompress(
-                    compressed_msg, 15, expected_length)
+                # the third argument of zlib.decompress() is only the
+                # initial buffer size, so bound the output explicitly
+                decompressor = zlib.decompressobj(15)
+                decompressed_msg = decompressor.decompress(
+                    compressed_msg, expected_length + 1)
+                if len(decompressed_msg) > expected_length or \
+                        not decompressor.eof:
+                    raise ValueError("Decompressed message length mismatch")
             elif self.compression_algo == \
                     CertificateCompressionAlgorithm.brotli:
                 if compression_algo_impls["brotli_accepts_limit"]:
